@@ -71,6 +71,9 @@ func (g *gen) history(nFeeds, nTrips int) []*gtfs.Realtime {
 			now += int64(1 + g.r.Intn(60))
 		}
 		feed := &gtfs.Realtime{CreatedAt: time.Unix(now, 0).In(loadZone("America/New_York"))}
+		if f > 0 && g.coin(0.03) {
+			feed.CreatedAt = time.Time{} // a message whose header has no timestamp: the zero instant, stamped as such
+		}
 		for _, tt := range pool {
 			if !g.coin(0.8) {
 				continue
@@ -174,6 +177,11 @@ func cJuTrip(t *gtfs.Trip) string {
 	}
 	return cRec(field{"ut_id", cStr(t.ID.ID)}, field{"ut_route", cStr(t.ID.RouteID)}, field{"ut_dir", cZ(int64(t.ID.DirectionID))},
 		field{"ut_date", cZ(t.ID.StartDate.Unix())}, field{"ut_time", cZ(int64(t.ID.StartTime))}, field{"ut_vehicle", veh}, field{"ut_stops", cList(stops)})
+}
+
+// cNanos: an instant as a Coq Z expression in nanoseconds since the epoch (computed by Coq: the product exceeds int64 for far bounds)
+func cNanos(t time.Time) string {
+	return fmt.Sprintf("(%s * 1000000000 + %s)", cZ(t.Unix()), cZ(int64(t.Nanosecond())))
 }
 func cJFeed(f *gtfs.Realtime) string {
 	var ts []string
@@ -306,6 +314,7 @@ type specTrip struct {
 	uid, id, route, vehicle string
 	dir                     gtfs.DirectionID
 	start                   int64
+	startT                  time.Time
 	assigned                bool
 	nupd                    int
 	last                    time.Time
@@ -334,6 +343,7 @@ func specJournal(feeds []*gtfs.Realtime, a, b time.Time) map[string]*specTrip {
 			}
 			st.id, st.route, st.dir = u.ID.ID, u.ID.RouteID, u.ID.DirectionID
 			st.start = u.ID.StartDate.Add(u.ID.StartTime).Unix()
+			st.startT = u.ID.StartDate.Add(u.ID.StartTime)
 			st.vehicle = ""
 			if u.Vehicle != nil {
 				st.assigned = true
@@ -355,7 +365,7 @@ func specJournal(feeds []*gtfs.Realtime, a, b time.Time) map[string]*specTrip {
 	}
 	out := map[string]*specTrip{}
 	for uid, st := range m {
-		if st.assigned && st.start >= a.Unix() && st.start <= b.Unix() {
+		if st.assigned && !st.startT.Before(a) && !b.Before(st.startT) {
 			out[uid] = st
 		}
 	}
@@ -466,6 +476,11 @@ func engineJournal(ctx *engineCtx) {
 				s, s2 = s2, s
 			}
 			wins = append(wins, [2]time.Time{time.Unix(s, 0), time.Unix(s2, 0)}, [2]time.Time{time.Unix(s+1, 0), far1}, [2]time.Time{far0, time.Unix(s-1, 0)})
+			// the bounds are instants, not whole seconds: a window opening a fraction of a second after a trip's start
+			// excludes it, one closing a fraction after it includes it (and symmetrically before)
+			frac := int64(1 + g.r.Intn(999999999))
+			wins = append(wins, [2]time.Time{time.Unix(s, frac), far1}, [2]time.Time{far0, time.Unix(s2, frac)},
+				[2]time.Time{time.Unix(s-1, frac), time.Unix(s2-1, frac)}, [2]time.Time{time.Unix(s, 1), time.Unix(s, 2)})
 		}
 		nontrivial := false
 		var prevJ *journal.Journal
@@ -543,10 +558,10 @@ func engineJournal(ctx *engineCtx) {
 			}
 			if ctx.prop != "C14" {
 				if msg := oracleC15(j, feeds, w[0], w[1]); msg != "" {
-					ctx.violate("c15-window", msg, map[string]any{"history": describeHistory(feeds), "window": []int64{w[0].Unix(), w[1].Unix()}})
+					ctx.violate("c15-window", msg, map[string]any{"history": describeHistory(feeds), "window": []string{w[0].UTC().Format(time.RFC3339Nano), w[1].UTC().Format(time.RFC3339Nano)}})
 				}
 			}
-			winCases = append(winCases, cPair(cPair(cZ(w[0].Unix()), cZ(w[1].Unix())), cJournal(j)))
+			winCases = append(winCases, cPair(cPair(cNanos(w[0]), cNanos(w[1])), cJournal(j)))
 		}
 		if nontrivial {
 			ctx.nontrivial++
@@ -564,7 +579,7 @@ func engineJournal(ctx *engineCtx) {
 	ctx.distribution["histories"] = nHist
 	ctx.distribution["stats"] = stats
 	ok := "fun c => let '(feeds, (prefixes, wins)) := c in " +
-		"(if list_eq_dec (list_eq_dec j_trip_eq_dec) (map (fun k => build_journal (firstn k feeds) (-1099511627776) 1099511627776) (seq 1 (List.length feeds))) prefixes then true else false) && " +
+		"(if list_eq_dec (list_eq_dec j_trip_eq_dec) (map (fun k => build_journal (firstn k feeds) (ns (-1099511627776)) (ns 1099511627776)) (seq 1 (List.length feeds))) prefixes then true else false) && " +
 		"forallb (fun w => let '((a, b), j) := w in if list_eq_dec j_trip_eq_dec (build_journal feeds a b) j then true else false) wins"
 	shard := 10
 	for i, k := 0, 0; i < len(cases); i, k = i+shard, k+1 {
